@@ -52,6 +52,9 @@ CHECKS = {
  "C18": ("grammar monitor: a recursive-descent parser written from the documented layout must consume every rendering completely and every number token must parse back bitwise to the stored part in its stored position; absent parts must not appear",
          "Runtime monitoring: ~9e4 (quick) / ~4.5e6 (thorough) renderings over 45 types (scalar, vector static/dynamic with dimensions 0..4, nested), all presence patterns reached by random masks, distinct exotic values per storage slot, non-symmetric matrices.",
          "matrix-shaped parts of nested element types are not driven; Python repr is compared with the Rust rendering under C17", "DESIGN.md 3/C18"),
+ "C12": ("identity monitor: outputs of the crate's LU/Jacobi routines and of nalgebra's generic decompositions over dual scalars are plugged into the defining identities (A x = b, A A^-1 = I, cofactor determinant, A V = V diag(lambda), V^T V = I, ordering, L L^T = M, norm) evaluated part by part in the reference model algebra; singular real parts must be reported",
+         "Runtime monitoring: ~7e4 (quick) / ~3e6 (thorough) routine calls over sizes 1..6, condition numbers 1..100, five row orders (both permutation parities, ~800 distinct pivot-row sequences observed), 7 scalar types for the crate's routines and 5 field types for nalgebra, singular and hostile (reducible real part) classes.",
+         "norm-wise tolerances K*n*kappa^min(order+1,3)*(order+1)^2*u (linear systems), K*n^2*(order+1)^2*u (eigen; 1e-9 for nalgebra whose own f64 residual is 2.5e-11); three listed findings K3-K5 (eigen decisions on real parts)", "DESIGN.md 3/C12"),
  "C01": ("reference-model monitor: every call of every elementary function on every type vs power-series Taylor composition, stratified random inputs",
          "Runtime monitoring: the real functions are executed on ~3e5 (quick) / ~1e7 (thorough) generated operands over 51 type instantiations and every argument region; each result part is compared with an independent truncated-Taylor-algebra model within 32*u*sum|terms|. Holds on what was observed, not a proof.",
          "trusts libm for g(x0); tolerance constant calibrated on the unchanged tree (max observed ratio < 10)", "DESIGN.md 3/C01"),
